@@ -212,7 +212,7 @@ def gene_exons(ref, t):
     return out
 
 
-def as_records(r, ref, t, n=1, min_tx_pos=3):
+def as_records(r, ref, t, n=1, min_tx_pos=3, nested_p=0.0):
     """Random alternative-splicing records on transcript t.  Each item: dict(line=GVF line, var=the record as the
     replace-[start,end)-by-alt variant the oracle uses (transcript coordinates, callVariant's internal anchoring),
     meta=the record in gene coordinates for the spec's Denote)."""
@@ -295,8 +295,30 @@ def as_records(r, ref, t, n=1, min_tx_pos=3):
         info += f"GENE_SYMBOL={g.name};GENOMIC_POSITION=chr1:1-2"
         alt = {'Deletion': '<DEL>', 'Insertion': '<INS>', 'Substitution': '<SUB>'}[rec['kind']]
         line = '\t'.join([t.gene, str(rec['start'] + 1), rec['id'], refbase, alt, '.', '.', info])
+        # small variants of the gene inside the donor segment ("nested"): written to the GVF as records of this
+        # transcript at intronic gene positions; the oracle gets them in donor coordinates
+        nested, nested_gvf = [], []
+        if rec['kind'] != 'Deletion' and nested_p and r.random() < nested_p and rec['dend'] - rec['dstart'] >= 4:
+            for _ in range(r.randrange(1, 3)):
+                kind = r.choice(['SNV', 'SNV', 'INS', 'DEL'])
+                gp = r.randrange(rec['dstart'], rec['dend'])       # sometimes on the first / last donor base
+                if kind == 'SNV':
+                    rf = gseq[gp]; alt = r.choice([b for b in 'ACGT' if b != rf])
+                elif kind == 'INS':
+                    rf = gseq[gp]; alt = rf + ''.join(r.choice('ACGT') for _ in range(r.randrange(1, 4)))
+                else:
+                    n_ = r.randrange(1, 4)
+                    if gp + 1 + n_ > rec['dend']:
+                        continue
+                    rf = gseq[gp:gp + 1 + n_]; alt = rf[0]
+                if any(gp <= x['gstart'] + len(x['ref']) and x['gstart'] <= gp + len(rf) for x in nested_gvf):
+                    continue
+                typ = 'SNV' if len(rf) == len(alt) == 1 else 'INDEL'
+                vid = f'{typ}-{gp + 1}-{rf}-{alt}'
+                nested_gvf.append(dict(tx=t.id, gene=t.gene, gstart=gp, ref=rf, alt=alt, id=vid, start=-1, end=-1, type=typ))
+                nested.append(dict(start=gp - rec['dstart'], end=gp - rec['dstart'] + len(rf), ref=list(rf), alt=list(alt), id=vid))
         out.append(dict(line=line, var=dict(var, id=rec['id'], tx=t.id, type=rec['kind']),
-                        meta=dict(rec, ref=[refbase]), gpos=rec['start']))
+                        meta=dict(rec, ref=[refbase], nested=nested), gpos=rec['start'], nested_gvf=nested_gvf))
     return out
 
 
